@@ -11,6 +11,7 @@
 //!   H  hang detected          {t,c,secs}
 //!   Z  normal end of shard    {t,cases_run,cases_total,evals}
 use rand::rngs::SmallRng;
+use rand::Rng;
 use rand::SeedableRng;
 use std::fmt::Debug;
 use std::fs::{File, OpenOptions};
@@ -596,6 +597,84 @@ impl Case {
             Err(m) => {
                 self.fail(op, "panic", &m, "panic where the property promises an answer");
                 None
+            }
+        }
+    }
+
+    /// Iterator-protocol monitor: the iterator produced by `mk` must behave, through
+    /// the skipping adaptors of `Iterator` (`nth`, `skip`, `step_by`, `count`, `last`,
+    /// `size_hint`), like an iterator over `model`. Everything is cut by `take`
+    /// so that an iterator that fails to end cannot hang the case. Only the results
+    /// up to the first `None` are compared (non-fused iterators are allowed).
+    pub fn iter_protocol<T: PartialEq + Debug + Clone, I: Iterator<Item = T>>(&mut self, op: &str, mk: impl Fn() -> I, model: &[T], trace: &dyn Fn() -> String) {
+        let n = model.len();
+        let cap = n + 3;
+        let ks: Vec<usize> = {
+            let r = self.rng();
+            let mut v = vec![0, 1, n / 2, n.saturating_sub(1), n, n + 1, n + 2, n + 63, n + 64, n + 65, 2 * n + 7];
+            v.push(r.random_range(0..=n));
+            v.push(n + r.random_range(0..200));
+            v.sort_unstable();
+            v.dedup();
+            v
+        };
+        let show = |v: &[T]| trunc(&format!("{:?}", v), 200);
+        for &k in &ks {
+            // nth(k), then the element after it
+            let got = catch(|| {
+                let mut it = mk();
+                let a = it.nth(k);
+                let b = if a.is_some() { it.next() } else { None };
+                (a, b)
+            });
+            let want_a = model.get(k).cloned();
+            let want_b = if want_a.is_some() { model.get(k + 1).cloned() } else { None };
+            match got {
+                Ok((a, b)) => {
+                    self.check(op, a == want_a && b == want_b, || format!("nth({}) then next() on a {}-item iterator: got ({:?}, {:?}), model ({:?}, {:?}); {}", k, n, a, b, want_a, want_b, trace()));
+                }
+                Err(m) => self.fail(op, "panic", &m, &format!("nth({}) on a {}-item iterator panicked; {}", k, n, trace())),
+            }
+            // skip(k)
+            match catch(|| mk().skip(k).take(cap).collect::<Vec<T>>()) {
+                Ok(got) => {
+                    let want: Vec<T> = model.iter().skip(k).cloned().collect();
+                    self.check(op, got == want, || format!("skip({}) on a {}-item iterator: got {} items {}, model {} items {}; {}", k, n, got.len(), show(&got), want.len(), show(&want), trace()));
+                }
+                Err(m) => self.fail(op, "panic", &m, &format!("skip({}) on a {}-item iterator panicked; {}", k, n, trace())),
+            }
+        }
+        let steps: Vec<usize> = {
+            let r = self.rng();
+            vec![1, 2, 3, 7, 8, 63, 64, 65, n.max(1), n + 1, 1 + r.random_range(0..n + 70)]
+        };
+        for &s in &steps {
+            match catch(|| mk().step_by(s).take(cap).collect::<Vec<T>>()) {
+                Ok(got) => {
+                    let want: Vec<T> = model.iter().step_by(s).cloned().collect();
+                    self.check(op, got == want, || format!("step_by({}) on a {}-item iterator: got {} items {}, model {} items {}; {}", s, n, got.len(), show(&got), want.len(), show(&want), trace()));
+                }
+                Err(m) => self.fail(op, "panic", &m, &format!("step_by({}) on a {}-item iterator panicked; {}", s, n, trace())),
+            }
+        }
+        match catch(|| (mk().take(cap).count(), mk().take(cap).last(), mk().size_hint())) {
+            Ok((cnt, last, (lo, hi))) => {
+                self.check(op, cnt == n && last == model.last().cloned(), || format!("count()/last() got ({}, {:?}), model ({}, {:?}); {}", cnt, last, n, model.last(), trace()));
+                self.check(op, lo <= n && hi.map_or(true, |h| h >= n), || format!("size_hint() = ({}, {:?}) excludes the {} items the iterator yields; {}", lo, hi, n, trace()));
+            }
+            Err(m) => self.fail(op, "panic", &m, &format!("count/last/size_hint panicked; {}", trace())),
+        }
+        // size_hint after a partial walk
+        if n > 0 {
+            let k = self.rng().random_range(0..=n);
+            if let Ok((lo, hi)) = catch(|| {
+                let mut it = mk();
+                for _ in 0..k {
+                    it.next();
+                }
+                it.size_hint()
+            }) {
+                self.check(op, lo <= n - k && hi.map_or(true, |h| h >= n - k), || format!("size_hint() after {} of {} items = ({}, {:?}); {}", k, n, lo, hi, trace()));
             }
         }
     }
